@@ -4,7 +4,7 @@ verus! {
 //@include shims/duration.rs
 //@include shims/uuid.rs
 //@include shims/std_option.rs
-pub enum OperationError { SerdeJsonError, SerdeCborError, DB0001MismatchedRestoreVersion, DB0002MismatchedRestoreVersion, ConsistencyError(ErrList), Backend, Other }
+pub enum OperationError { InvalidDbState, FsError, SerdeJsonError, SerdeCborError, DB0001MismatchedRestoreVersion, DB0002MismatchedRestoreVersion, ConsistencyError(ErrList), Backend, Other }
 pub struct ErrList { pub o: u8 }
 pub struct ConsistencyError { pub o: u8 }
 // stored entry, key material, replication metadata as they appear in a backup: opaque
@@ -49,8 +49,36 @@ pub open spec fn restored_ok(bytes: Seq<u8>, c: BackupCompression, be: &BackendW
         && (forall|i: int| 0 <= i < be.idlayer.raw().len() ==> (#[trigger] be.idlayer.raw()[i]).id == i + 1 && be.idlayer.raw()[i].data@ == json_encode(b->V5_entries@[i]))
         && be.idlayer.consistent()
 }
+// backup side: what is written is the encoding of a current-version backup holding the database's identity and its decoded rows
+pub open spec fn backup_ok(be: &BackendWriteTransaction, c: BackupCompression, before: Seq<u8>, after: Seq<u8>) -> bool {
+    exists|b: DbBackup| #[trigger] is_current_backup(b)
+        && Some(b->V5_db_s_uuid) == be.idlayer.s_uuid() && Some(b->V5_db_d_uuid) == be.idlayer.d_uuid() && Some(b->V5_db_ts_max) == be.idlayer.ts_max()
+        && Some(b->V5_keyhandles) == be.idlayer.key_handles() && b->V5_repl_meta == be.ruv.meta()
+        && b->V5_entries@.len() == be.idlayer.raw().len()
+        && (forall|i: int| 0 <= i < be.idlayer.raw().len() ==> entry_decode(be.idlayer.raw()[i].data@) == Some(#[trigger] b->V5_entries@[i]))
+        && after == before + (match c { BackupCompression::NoCompression => backup_encode(b), BackupCompression::Gzip => gz(backup_encode(b)) })
+}
 // backups from any other server version (or the older formats, which carry none) are refused
 pub open spec fn is_current_backup(b: DbBackup) -> bool { b is V5 && b->V5_version@ == pkg_series() }
+// backup followed by restore (uncompressed stream), IF decoding inverts encoding (the serde round trip: hypothesis, not proved):
+// the restored database carries the original's identity, change time, key handles and replication metadata, and as many rows
+pub proof fn lemma_backup_then_restore(src: &BackendWriteTransaction, dst: &BackendWriteTransaction, bytes: Seq<u8>)
+    requires forall|b: DbBackup| json_decode(#[trigger] backup_encode(b)) == Some(b),
+             backup_ok(src, BackupCompression::NoCompression, Seq::<u8>::empty(), bytes),
+             restored_ok(bytes, BackupCompression::NoCompression, dst),
+    ensures dst.idlayer.s_uuid() == src.idlayer.s_uuid(), dst.idlayer.d_uuid() == src.idlayer.d_uuid(), dst.idlayer.ts_max() == src.idlayer.ts_max(),
+            dst.idlayer.key_handles() == src.idlayer.key_handles(), dst.ruv.restored_from() == Some(src.ruv.meta()),
+            dst.idlayer.raw().len() == src.idlayer.raw().len(), dst.idlayer.consistent(),
+{
+    let b1 = choose|b: DbBackup| #[trigger] is_current_backup(b)
+        && Some(b->V5_db_s_uuid) == src.idlayer.s_uuid() && Some(b->V5_db_d_uuid) == src.idlayer.d_uuid() && Some(b->V5_db_ts_max) == src.idlayer.ts_max()
+        && Some(b->V5_keyhandles) == src.idlayer.key_handles() && b->V5_repl_meta == src.ruv.meta()
+        && b->V5_entries@.len() == src.idlayer.raw().len()
+        && (forall|i: int| 0 <= i < src.idlayer.raw().len() ==> entry_decode(src.idlayer.raw()[i].data@) == Some(#[trigger] b->V5_entries@[i]))
+        && bytes == Seq::<u8>::empty() + backup_encode(b);
+    assert(bytes =~= backup_encode(b1));
+    assert(json_decode(bytes) == Some(b1));
+}
 // ---- id layer and replication vector: what a restore writes ----
 pub struct IdLayer { pub o: u8 }
 impl IdLayer {
@@ -69,12 +97,50 @@ impl IdLayer {
     #[verifier::external_body] pub fn set_key_handles(&mut self, k: BTreeMap<KeyHandleId, KeyHandle>) -> (r: Result<(), OperationError>) ensures final(self).same_but(*old(self), 3), r is Ok ==> final(self).key_handles() == Some(k) { unimplemented!() }
     #[verifier::external_body] pub fn write_identries_raw(&mut self, it: KvxIntoIter<IdRawEntry>) -> (r: Result<(), OperationError>) ensures final(self).same_but(*old(self), 4), r is Ok ==> final(self).raw() == old(self).raw() + it.seq() { unimplemented!() }
     #[verifier::external_body] pub fn verify(&mut self) -> (r: Vec<Result<(), ConsistencyError>>) ensures *final(self) == *old(self), (r@.len() == 0) == old(self).consistent() { unimplemented!() }
+    // reading side (backup)
+    #[verifier::external_body] pub fn get_identry_raw(&mut self, idl: &IdList) -> (r: Result<Vec<IdRawEntry>, OperationError>) ensures *final(self) == *old(self), r matches Ok(v) ==> v@ == old(self).raw() { unimplemented!() }
+    #[verifier::external_body] pub fn get_db_s_uuid(&mut self) -> (r: Result<Option<Uuid>, OperationError>) ensures *final(self) == *old(self), r matches Ok(v) ==> v == old(self).s_uuid() { unimplemented!() }
+    #[verifier::external_body] pub fn get_db_d_uuid(&mut self) -> (r: Result<Option<Uuid>, OperationError>) ensures *final(self) == *old(self), r matches Ok(v) ==> v == old(self).d_uuid() { unimplemented!() }
+    #[verifier::external_body] pub fn get_db_ts_max(&mut self) -> (r: Result<Option<Duration>, OperationError>) ensures *final(self) == *old(self), r matches Ok(v) ==> v == old(self).ts_max() { unimplemented!() }
+    #[verifier::external_body] pub fn get_key_handles(&mut self) -> (r: Result<BTreeMap<KeyHandleId, KeyHandle>, OperationError>) ensures *final(self) == *old(self), r matches Ok(v) ==> old(self).key_handles() == Some(v) { unimplemented!() }
 }
+pub enum IdList { AllIds, Other }
+impl<T> Vec<T> { #[verifier::external_body] pub fn iter(&self) -> (r: KvxIter<'_, T>) ensures r.seq() == self@ { unimplemented!() }
+                 #[verifier::external_body] pub fn as_slice(&self) -> (r: &Vec<T>) ensures *r == *self { unimplemented!() } }
+#[verifier::external_body] #[verifier::reject_recursive_types(T)] pub struct KvxIter<'a, T> { p: core::marker::PhantomData<&'a T> }
+impl<'a, T> KvxIter<'a, T> {
+    pub uninterp spec fn seq(&self) -> Seq<T>;
+    #[verifier::external_body] pub fn kvx_try_map_vec<U, E, F: Fn(&'a T) -> Result<U, E>>(self, f: F) -> (r: Result<Vec<U>, E>)
+        requires forall|t: &T| #[trigger] f.requires((t,)),
+        ensures r matches Ok(v) ==> (v@.len() == self.seq().len() && forall|i: int| 0 <= i < v@.len() ==> f.ensures((&self.seq()[i],), Ok(#[trigger] v@[i]))) { unimplemented!() }
+}
+pub uninterp spec fn entry_decode(bytes: Seq<u8>) -> Option<DbEntry>;
+#[verifier::external_body] pub fn kvx_from_slice(d: &Vec<u8>) -> (o: Result<DbEntry, SerdeError>) ensures o matches Ok(e) ==> entry_decode(d@) == Some(e) { unimplemented!() }
+pub uninterp spec fn backup_encode(b: DbBackup) -> Seq<u8>;
+pub uninterp spec fn gz(b: Seq<u8>) -> Seq<u8>;
+#[verifier::external_body] pub fn kvx_to_string(b: &DbBackup) -> (o: Result<String, SerdeError>) ensures o matches Ok(s) ==> s.as_bytes_spec() == backup_encode(*b) { unimplemented!() }
+pub trait KvxStr { spec fn as_bytes_spec(&self) -> Seq<u8>; }
+impl KvxStr for String { uninterp spec fn as_bytes_spec(&self) -> Seq<u8>; }
+#[verifier::external_body] pub fn kvx_as_bytes(s: &String) -> (r: &Vec<u8>) ensures r@ == s.as_bytes_spec() { unimplemented!() }
+#[verifier::external_body] pub fn kvx_series_string() -> (r: String) ensures r@ == pkg_series() { unimplemented!() }
+// the output stream (std::io::Write) and the gzip encoder around it: they record what was written
+pub struct IoError { pub o: u8 }
+pub trait KvxWrite: Sized {
+    spec fn written(&self) -> Seq<u8>;
+    fn write(&mut self, b: &Vec<u8>) -> (r: Result<usize, IoError>) ensures r is Ok ==> final(self).written() == old(self).written() + b@;
+    fn flush(&mut self) -> (r: Result<(), IoError>) ensures final(self).written() == old(self).written();
+}
+pub struct Compression { pub o: u8 }
+impl Compression { pub fn best() -> (r: Compression) { Compression { o: 9 } } }
+#[verifier::external_body] pub fn kvx_gz_write_all<OUT: KvxWrite>(out: &mut OUT, c: Compression, b: &Vec<u8>) -> (r: Result<(), IoError>)
+    ensures r is Ok ==> final(out).written() == old(out).written() + gz(b@) { unimplemented!() }
 #[verifier::external_body] #[verifier::reject_recursive_types(T)] pub struct KvxIntoIter<T> { p: core::marker::PhantomData<T> }
 impl<T> KvxIntoIter<T> { pub uninterp spec fn seq(&self) -> Seq<T>; }
 impl<T> Vec<T> { #[verifier::external_body] pub fn into_iter(self) -> (r: KvxIntoIter<T>) ensures r.seq() == self@ { unimplemented!() } }
 pub struct Ruv { pub o: u8 }
 impl Ruv {
+    pub uninterp spec fn meta(&self) -> DbReplMeta;                  // the change ids the vector holds, in backup form
+    #[verifier::external_body] pub fn to_db_backup_ruv(&self) -> (r: DbReplMeta) ensures r == self.meta() { unimplemented!() }
     pub uninterp spec fn restored_from(&self) -> Option<DbReplMeta>;
     #[verifier::external_body] pub fn kvx_restore_meta(&mut self, m: DbReplMeta) -> (r: Result<(), OperationError>) ensures r is Ok ==> final(self).restored_from() == Some(m) { unimplemented!() }
 }
@@ -92,6 +158,7 @@ impl BackendWriteTransaction {
     pub fn verify(&mut self) -> (r: Vec<Result<(), ConsistencyError>>) ensures *final(self) == *old(self), (r@.len() == 0) == old(self).idlayer.consistent() { self.get_idlayer().verify() }
     #[verifier::external_body] pub fn kvx_errs(v: Vec<Result<(), ConsistencyError>>) -> (r: ErrList) { unimplemented!() }
 //@extract restore
+//@extract backup
 }
 //@extract entry_step
 impl BackendWriteTransaction {
